@@ -112,6 +112,14 @@ func runScenario(m *M, path string) error {
 			m.EDecodeForm(r, "unc", jb(ev["data"]))
 		case "EDecodeHex":
 			m.EDecodeForm(r, "hex", jb(ev["data"]))
+		case "EDecodeOf": // decode, into r, what one of the encoders returns for a (a TLC-generated round trip)
+			var enc []byte
+			if f, _ := ev["form"].(string); f == "unc" {
+				enc = m.EEncodeUnc(a)
+			} else {
+				enc = m.EEncode(a)
+			}
+			m.EDecodeForm(r, "any", enc)
 		case "EDecodeCoords":
 			m.EDecodeCoords(r, jb(ev["x"]), jb(ev["y"]))
 		case "ESetRaw":
